@@ -405,6 +405,99 @@ def _task(t):
     return acc
 
 
+# ------------------------------------------------------------------ the relations around interaction rows
+
+ROWS = {"quick": {"2": 20000, "3.0": 10000, "3.1": 10000, "4.0": 6000},
+        "thorough": {"2": 200000, "3.0": 100000, "3.1": 100000, "4.0": 60000}}
+
+
+def row_groups(fam, asg):
+    """(relation, baseline assignment, [variant assignments], slots) for every substitution the
+    statement declares ineffective, applied to one vector in which all metric groups vary."""
+    nd = T.ND[fam]
+    tab = T.METRICS[fam]
+    major = fam[0]
+    mods = {"2": [], "3": T.V3_MODIFIED, "4": T.V4_MODIFIED}[major]
+    equiv = {"2": V2_EQUIV, "3": V3_EQUIV, "4": V4_EQUIV}[major]
+    out = []
+    if mods:
+        # (a) a Not Defined modified metric set to its base metric's value
+        free = [m for m in mods if asg.get(m, nd) == nd and asg[m[1:]] in tab[m]]
+        vs = [dict(asg, **{m: asg[m[1:]]}) for m in free]
+        if len(free) > 1:
+            vs.append(dict(asg, **dict((m, asg[m[1:]]) for m in free)))
+        if vs:
+            out.append(("a", asg, vs, ALL))
+        # (d) a base metric overridden by a defined modified metric
+        vs = []
+        for m in mods:
+            if asg.get(m, nd) != nd:
+                b = m[1:]
+                vs += [dict(asg, **{b: v}) for v in tab[b] if v != asg[b]]
+        if vs:
+            out.append(("d", asg, vs, (2,) if major == "3" else (0,)))
+    # (b) a Not Defined metric set to the value the specification declares equivalent
+    free = [m for m in equiv if asg.get(m, nd) == nd]
+    vs = [dict(asg, **{m: equiv[m]}) for m in free]
+    if len(free) > 1:
+        vs.append(dict(asg, **dict((m, equiv[m]) for m in free)))
+    if vs:
+        out.append(("b", asg, vs, ALL))
+    if major == "4":
+        # (c) supplemental metrics added, changed, removed
+        vs = []
+        for m in T.V4_SUPPLEMENTAL:
+            vs += [dict(asg, **{m: v}) for v in tab[m] if v != asg.get(m)]
+            if m in asg:
+                vs.append(dict((k, v) for k, v in asg.items() if k != m))
+        out.append(("c", asg, vs, (0,)))
+    else:
+        # (e) temporal metrics never change the base score, environmental ones neither base nor temporal
+        temporal = T.V2_TEMPORAL if major == "2" else T.V3_TEMPORAL
+        env = T.V2_ENV if major == "2" else T.V3_ENV
+        for group, slots in ((temporal, (0,)), (env, (0, 1))):
+            vs = []
+            for m in group:
+                vs += [dict(asg, **{m: v}) for v in tab[m] if v != asg.get(m)]
+                if m in asg:
+                    vs.append(dict((k, v) for k, v in asg.items() if k != m))
+            out.append(("e", asg, vs, slots))
+    return out
+
+
+def _row_task(t):
+    fam, lo, hi = t
+    acc = sweep.new_acc()
+    doms = spaces._domains(fam)
+    order = [m for m, _ in doms]
+    P = T.PREFIX[fam]
+    for k in range(lo, hi):
+        asg = spaces.interaction_row(fam, k, doms)
+        for rel, base_asg, variants, slots in row_groups(fam, asg):
+            base = spell(P, base_asg, order)
+            vs = [spell(P, v, order) for v in variants]
+            acc["n"] += 1 + len(vs)
+            acc["calls"] += 2 * (1 + len(vs))
+            name = "%s.v%s.interaction_rows" % (rel, fam)
+            try:
+                diffs, sb = check_group(fam, base, vs, slots)
+            except Exception as e:  # noqa
+                sweep.bad(acc, {"what": "%s: %s raised on %r or a variant: %s" % (name, type(e).__name__, base, e),
+                                "kind": "raise", "family": fam, "relation": name, "input": [base] + vs[:50],
+                                "slots": list(slots), "signature": {"kind": "raise"}})
+                continue
+            acc["cmp"] += len(vs) * len(slots)
+            if sb[0] != 0.0:
+                acc["nontrivial"] += len(vs)
+            for v, s_, x, y in diffs[:2]:
+                sweep.bad(acc, {"what": "%s: slot %d is %r for %r but %r for %r" % (name, s_, x, base, y, v),
+                                "kind": "interference", "family": fam, "relation": name, "input": [base, v],
+                                "slots": [s_], "signature": {"kind": "interference", "relation": rel}})
+            acc["nbad"] += max(0, len(diffs) - 2)
+    acc["extra"] = {"rows.v%s" % fam: acc["n"]}
+    return acc
+
+
 def run(ctx, res):
     global _RELS
     _RELS = relations(ctx.tier)
@@ -415,6 +508,12 @@ def run(ctx, res):
     order = ctx.rot(range(len(tasks)))
     accs = core.task_map(_task, [tasks[i] for i in order])
     accs = [a for _, a in sorted(zip(order, accs), key=lambda p: p[0])]
+    rtasks = []
+    for fam in T.FAMILIES:
+        for lo, hi in core.split_range(ROWS[ctx.tier][fam], 24):
+            rtasks.append((fam, lo, hi))
+    accs += core.task_map(_row_task, rtasks)
+    res.coverage["interaction_rows"] = ROWS[ctx.tier]
     tot = sweep.merge(accs)
     per = {}
     for a in accs:
